@@ -16,7 +16,37 @@ pub fn env_defs() -> Vec<Stmt> {
         Stmt::Def("Y".into(), Some("bash".into()), cmd("ybash")),
         Stmt::Def("Y".into(), Some("zsh".into()), cmd("yzsh")),
         Stmt::Def("Y".into(), None, cmd("yplain")),
+        // a chain of nested definitions (expansion order matters from depth 3 on)
+        Stmt::Def("A1".into(), None, G::Seq(vec![lit("x1"), nt("B1")])),
+        Stmt::Def("B1".into(), None, G::Alt(vec![G::Seq(vec![lit("y1"), nt("C1")]), lit("y2")])),
+        Stmt::Def("C1".into(), None, G::Seq(vec![lit("z1"), G::Opt(Box::new(nt("D1")))])),
+        Stmt::Def("D1".into(), None, G::Alt(vec![lit("w1"), nt("X")])),
+        // a definition that contains a within-word expression
+        Stmt::Def("O".into(), None, G::Sub(vec![lit("--c="), G::Alt(vec![lit("u"), lit("v")])])),
     ]
+}
+
+/// reverse the parts of every word and the order of every alternative: same pieces, other order
+fn mirror(g: &G) -> G {
+    match g {
+        G::Sub(v) => {
+            let mut w: Vec<G> = v.iter().map(mirror).collect();
+            w.reverse();
+            // two adjacent literals would fuse into one token: keep the original order then
+            if w.windows(2).any(|p| matches!((&p[0], &p[1]), (G::Lit(..), G::Lit(..)))) { G::Sub(v.iter().map(mirror).collect()) } else { G::Sub(w) }
+        }
+        G::Alt(v) => {
+            let mut w: Vec<G> = v.iter().map(mirror).collect();
+            w.reverse();
+            G::Alt(w)
+        }
+        G::Seq(v) => G::Seq(v.iter().map(mirror).collect()),
+        G::Fb(v) => G::Fb(v.iter().map(mirror).collect()),
+        G::Opt(x) => G::Opt(Box::new(mirror(x))),
+        G::Many(x) => G::Many(Box::new(mirror(x))),
+        G::Dd(x, d) => G::Dd(Box::new(mirror(x)), d.clone()),
+        other => other.clone(),
+    }
 }
 
 pub fn wrap(g: &G) -> Grammar {
@@ -27,7 +57,7 @@ pub fn wrap(g: &G) -> Grammar {
 
 pub fn corpus(thorough: bool, seed: u64) -> Vec<Grammar> {
     let leaves_small = vec![lit("a"), lit("b"), litd("a", "d1"), nt("X"), nt("U"), nt("Y"), cmd("echo k")];
-    let leaves_big = vec![lit("a"), lit("b"), lit("ab"), litd("a", "d1"), litd("c", "d2"), nt("X"), nt("U"), nt("Y"), nt("PATH"), nt("_"), cmd("echo k")];
+    let leaves_big = vec![lit("a"), lit("b"), lit("ab"), litd("a", "d1"), litd("c", "d2"), nt("X"), nt("U"), nt("Y"), nt("PATH"), nt("_"), cmd("echo k"), cmd("echo j"), nt("A1"), nt("O")];
     let mut out: Vec<Grammar> = vec![];
     let max = if thorough { 5 } else { 4 };
     for n in 1..=max {
@@ -54,6 +84,27 @@ pub fn corpus(thorough: bool, seed: u64) -> Vec<Grammar> {
         G::Sub(vec![lit("--x="), G::Dd(Box::new(G::Alt(vec![lit("a"), lit("b")])), "d".into()), nt("U")]),
     ];
     out.extend(special.iter().map(wrap));
+    // every small within-word expression next to its mirror image (same pieces, other order),
+    // and the same expression / definition used under two different `||` branches
+    let word_leaves = vec![lit("a"), lit("b"), nt("U"), cmd("echo k"), cmd("echo j"), nt("Y")];
+    let mut words: Vec<G> = vec![];
+    for n in 3..=(if thorough { 5 } else { 4 }) {
+        let mut v = vec![];
+        enumerate(n, &word_leaves, false, &mut v);
+        words.extend(v.into_iter().filter(|g| matches!(g, G::Sub(_))));
+    }
+    for w in &words {
+        let m = mirror(w);
+        if &m != w {
+            out.push(wrap(&G::Alt(vec![G::Seq(vec![lit("x"), w.clone()]), G::Seq(vec![lit("y"), m])])));
+        }
+        out.push(wrap(&G::Fb(vec![w.clone(), G::Seq(vec![lit("e"), w.clone()])])));
+    }
+    for n in ["X", "Y", "A1", "O", "PATH", "U"] {
+        out.push(wrap(&G::Fb(vec![nt(n), G::Seq(vec![lit("e"), nt(n)])])));
+        out.push(wrap(&G::Seq(vec![G::Opt(Box::new(G::Fb(vec![lit("a"), nt(n)]))), nt(n)])));
+        out.push(wrap(&G::Sub(vec![lit("p="), nt(n)])));
+    }
     let mut rng = Rng::new(seed.wrapping_add(17));
     let nrand = if thorough { 3000 } else { 300 };
     for i in 0..nrand {
@@ -150,7 +201,7 @@ pub fn check_one(gr: Option<&Grammar>, text: &str, shell: &str, out: &mut Vec<Vi
     }
 
     // ---- C09: no state with two readings of one word leading to different continuations
-    c09_determinism(&min_nfa, &min_read, "main", text, shell, out);
+    c09_determinism(&min_nfa, &min_read, &nfa_nolevels(&comp.min), "main", text, shell, out);
 
     // ---- C09: `||` behaves exactly like `|` when matching
     if let Some(gr) = gr {
@@ -215,15 +266,17 @@ fn c03_min_only(min: &complgen::dfa::DFA, which: &str, text: &str, shell: &str, 
     }
 }
 
-fn c09_determinism(n: &Nfa, readings: &Nfa, which: &str, text: &str, shell: &str, out: &mut Vec<Violation>) {
+fn c09_determinism(n: &Nfa, readings: &Nfa, nolevels: &Nfa, which: &str, text: &str, shell: &str, out: &mut Vec<Violation>) {
     // `n` (labelled items) and `readings` (items as read when matching) have identical shape
     for (s, row) in n.trans.iter().enumerate() {
         let mut by: BTreeMap<String, BTreeSet<usize>> = BTreeMap::new();
         let mut names: BTreeMap<String, Vec<String>> = BTreeMap::new();
+        let mut flat: BTreeMap<String, BTreeSet<String>> = BTreeMap::new();
         for (k, (a, t)) in row.iter().enumerate() {
             let r = readings.trans[s][k].0.clone();
             by.entry(r.clone()).or_default().insert(*t);
-            names.entry(r).or_default().push(a.clone());
+            names.entry(r.clone()).or_default().push(a.clone());
+            flat.entry(r).or_default().insert(nolevels.trans[s][k].0.clone());
         }
         for (r, tg) in by {
             if tg.len() > 1 {
@@ -232,9 +285,8 @@ fn c09_determinism(n: &Nfa, readings: &Nfa, which: &str, text: &str, shell: &str
                     let descrs: BTreeSet<&str> = labels.iter().map(|l| l.split('|').nth(1).unwrap_or("")).collect();
                     if descrs.len() > 1 { "same-literal-different-description" } else { "same-literal-different-fallback-level" }
                 } else if r.starts_with("W:") {
-                    let labels = &names[&r];
-                    let bodies: BTreeSet<&str> = labels.iter().map(|l| l.splitn(2, '|').nth(1).unwrap_or("")).collect();
-                    if bodies.len() > 1 { "same-within-word-language-different-spelling" } else { "same-within-word-expression-different-fallback-level" }
+                    // identical once the `||` levels are erased = the same expression used at two levels
+                    if flat[&r].len() > 1 { "same-within-word-language-different-spelling" } else { "same-within-word-expression-different-fallback-level" }
                 } else {
                     "same-command-different-fallback-level"
                 };
@@ -279,6 +331,48 @@ pub fn run(thorough: bool, seed: u64) -> Report {
     rep
 }
 
+/// Seeded random grammars of 8..24 nodes over four literals (dense loops / optionals): the shapes
+/// on which partition-refinement slips show up (about 1 in 4000 for the Hopcroft `break` defect).
+pub fn fuzz_corpus(n: usize, seed: u64) -> Vec<Grammar> {
+    let leaves = vec![lit("a"), lit("b"), lit("c"), lit("d")];
+    let mut rng = Rng::new(seed.wrapping_mul(31).wrapping_add(7));
+    (0..n)
+        .map(|i| {
+            let budget = 8 + (i % 17);
+            let g = random_tree(&mut rng, budget, &leaves, false);
+            Grammar { stmts: vec![Stmt::Call("cmd".into(), g)] }
+        })
+        .collect()
+}
+
+pub fn run_fuzz(thorough: bool, seed: u64) -> Report {
+    let n = if thorough { 400_000 } else { 40_000 };
+    let mut rep = Report {
+        bound: format!("{n} seeded random expression trees of 8..24 nodes over the literals a,b,c,d (sequence, |, ||, [], ..., within-word juxtaposition), shell bash"),
+        exhaustive: false,
+        ..Default::default()
+    };
+    let mut stats: BTreeMap<String, u64> = BTreeMap::new();
+    let mut distinct: BTreeSet<String> = BTreeSet::new();
+    for gr in fuzz_corpus(n, seed) {
+        let text = gr.print();
+        rep.cases += 1;
+        if distinct.insert(text.clone()) {
+            rep.distinct_nontrivial += 1;
+        }
+        check_one(Some(&gr), &text, "bash", &mut rep.violations, &mut stats);
+        if rep.samples.len() < 3 && text.len() > 60 {
+            rep.samples.push(J::s(&text));
+        }
+    }
+    rep.samples.push(J::Obj(stats.iter().map(|(k, v)| (k.clone(), J::Num(*v as i64))).collect()));
+    let acc = *stats.get("accepted").unwrap_or(&0);
+    if acc * 3 < rep.cases {
+        rep.undecided.push(format!("only {acc} of {} generated grammars were accepted", rep.cases));
+    }
+    rep
+}
+
 pub fn replay(args: &[String]) -> i32 {
     // args: obligation shell text
     let (obl, shell, text) = (&args[0], &args[1], &args[2]);
@@ -297,6 +391,16 @@ pub fn replay(args: &[String]) -> i32 {
                 v.clear();
                 check_one(Some(&gr), text, shell, &mut v, &mut stats);
                 found = true;
+                break;
+            }
+        }
+    }
+    if !found {
+        let seed: u64 = std::env::var("VERIF_SEED").ok().and_then(|s| s.parse().ok()).unwrap_or(0);
+        for gr in fuzz_corpus(400_000, seed) {
+            if &gr.print() == text {
+                v.clear();
+                check_one(Some(&gr), text, shell, &mut v, &mut stats);
                 break;
             }
         }
